@@ -194,6 +194,7 @@ func (p *ProjectRunner) waitIfNeeded(process *types.ProcessConfig) error {
 				log.Info().Msgf("%s is waiting for %s to start", process.ReplicaName, k)
 				proc.waitForStarted()
 				if !proc.isStarted() {
+					verifTraceDep(process, k, "DepUnsat", proc)
 					return fmt.Errorf("process %s depended on %s to start, but it was terminated before it started", process.ReplicaName, k)
 				}
 			}
